@@ -46,6 +46,7 @@ EXPECTED_PROBES = [
     "frozen_mutation_refused",
     "clone_of_unfrozen_refused",
     "iterator_survived_mutation",
+    "handle_dropped_while_clones_alive",
 ]
 
 _B = None
@@ -124,8 +125,10 @@ def gen_case(seed, tier):
             ops.append(["clear", h, 0])
         elif r < 0.62:
             ops.append(["freeze", h, 0])
-        elif r < 0.67:
+        elif r < 0.66:
             ops.append(["clone", h, rng.choice([0, 1])])
+        elif r < 0.67:
+            ops.append(["drop", h, 0])
         elif r < 0.70:
             ops.append(["setop", h, rng.choice(["|=", "&=", "-=", "^="]), [rng.randrange(universe) for _ in range(rng.choice([1, 3, 8]))]])
         elif r < 0.74:
@@ -270,18 +273,25 @@ def check_structure(tree, what):
 
 
 def fingerprint(tree):
-    out = {}
-    keep = []
+    """[(node, ids of its elements, ids of its children)] for every node reachable now.  The
+    node objects themselves are kept, so the check works after the tree handle is dropped."""
+    out = []
 
     def walk(node):
-        out[id(node)] = (tuple(id(e) for e in node.elts), tuple(id(c) for c in node.children), id(node.creator))
-        keep.append(node)
-        keep.extend(node.elts)
+        out.append((node, tuple(id(e) for e in node.elts), tuple(id(c) for c in node.children), list(node.elts)))
         for c in node.children:
             walk(c)
 
     walk(tree.root)
-    return out, keep
+    return out
+
+
+def fingerprint_changed(fp):
+    n = 0
+    for node, elts, children, _keep in fp:
+        if tuple(id(e) for e in node.elts) != elts or tuple(id(c) for c in node.children) != children:
+            n += 1
+    return n
 
 
 class _World:
@@ -340,6 +350,8 @@ class _World:
     def check_all(self, what):
         res = self.res
         for i, (tr, m) in enumerate(zip(self.trees, self.models)):
+            if tr is None:
+                continue
             tag = f"{what}: tree {i}"
             if len(tr) != len(m.keys):
                 raise Violation("C19:content", f"{tag}: len {len(tr)}, model {len(m.keys)}")
@@ -355,12 +367,12 @@ class _World:
                     if e.value() != m.d[e.key()]:
                         raise Violation("C19:content", f"{tag}: key {e.key()} maps to {e.value()}, model {m.d[e.key()]} (a write leaked between clones or a replacement was lost)")
             m.height = height
-        for i, (fp, keep) in self.frozen_fp.items():
-            now, _ = fingerprint(self.trees[i])
-            if now != fp:
-                changed = [k for k in fp if now.get(k) != fp[k]]
-                raise Violation("C19:frozen-node-changed", f"{what}: a node reachable from frozen tree {i} was modified in place ({len(changed)} node(s)) -- missing copy-on-write")
-        res.state(len(self.trees), tuple(m.frozen for m in self.models), tuple(min(len(m.keys), 64) // 8 for m in self.models), tuple(getattr(m, "height", 0) for m in self.models), len(self.cursors))
+        for i, fp in self.frozen_fp.items():
+            n = fingerprint_changed(fp)
+            if n:
+                raise Violation("C19:frozen-node-changed", f"{what}: {n} node(s) that were reachable from frozen tree {i} when it was frozen have been modified in place -- missing copy-on-write")
+        alive = [m for t, m in zip(self.trees, self.models) if t is not None]
+        res.state(len(alive), tuple(m.frozen for m in alive), tuple(min(len(m.keys), 64) // 8 for m in alive), tuple(getattr(m, "height", 0) for m in alive), len(self.cursors))
 
     # ---- operations ----
     def apply(self, op):
@@ -368,9 +380,22 @@ class _World:
         res = self.res
         o = op[0]
         ntrees = len(self.trees)
-        if o in ("set", "del", "get", "contains", "len", "pop", "popitem", "setdefault", "update", "discard", "delete_exact", "remove", "clear", "freeze", "clone", "setop", "copen", "iopen"):
-            i = op[1] % ntrees
+        if o in ("set", "del", "get", "contains", "len", "pop", "popitem", "setdefault", "update", "discard", "delete_exact", "remove", "clear", "freeze", "clone", "setop", "copen", "iopen", "drop"):
+            alive = [j for j, t in enumerate(self.trees) if t is not None]
+            i = alive[op[1] % len(alive)]
             tr, m = self.trees[i], self.models[i]
+        if o == "drop":
+            # a holder lets go of its handle: the tree object may be collected while clones
+            # that share its nodes live on (and its address may be reused by a later tree)
+            if len(alive) < 2:
+                return
+            if any(cm.tree == i for _, cm in self.cursors.values()) or any(cm.tree == i for _, cm in self.iters.values()):
+                return
+            self.trees[i] = None
+            self.models[i] = TreeModel()
+            del tr
+            self.res.probes.inc("handle_dropped_while_clones_alive")
+            return
         if o == "set":
             k = op[2]
             if m.frozen:
@@ -424,7 +449,7 @@ class _World:
                 m.frozen = True
                 self.frozen_fp[i] = fingerprint(tr)
         elif o == "clone":
-            if len(self.trees) >= 5:
+            if len([t for t in self.trees if t is not None]) >= 5:
                 return
             if not m.frozen:
                 try:
@@ -716,7 +741,6 @@ def run_case(case, keep_log=False):
         w.check_all("after preload")
         every = 1 if len(case["ops"]) <= 250 else 4
         for n, op in enumerate(case["ops"]):
-            before_root = [len(t.root.elts) if not t.root.is_leaf else -1 for t in w.trees]
             heights = [getattr(m, "height", 0) for m in w.models]
             w.apply(op)
             if n % every == 0 or n == len(case["ops"]) - 1:
